@@ -87,12 +87,35 @@ Theorem C33_randrange_within :
 Proof. exact randrange_within. Qed.
 Print Assumptions C33_randrange_within.
 
-(** uniform on a non-degenerate interval (scaled integers a < b): a <= N < b. *)
+(** uniform (scaled integers a <= b, incl. a = b): a <= N <= b, and N < b when a < b; mirrored for b < a. *)
 Theorem C33_uniform_within :
   forall (fuel : nat) (a b : Z) (tp : tape) (v : Z) (tp' : tape),
-    bits tp -> (a < b)%Z -> uniform_fxp fuel a b tp = Some (v, tp') -> (a <= v < b)%Z.
+    bits tp -> (a <= b)%Z -> uniform_fxp fuel a b tp = Some (v, tp') ->
+    (a <= v <= b)%Z /\ ((a < b)%Z -> (v < b)%Z).
 Proof. exact uniform_within. Qed.
 Print Assumptions C33_uniform_within.
+
+Theorem C33_uniform_within_rev :
+  forall (fuel : nat) (a b : Z) (tp : tape) (v : Z) (tp' : tape),
+    bits tp -> (b < a)%Z -> uniform_fxp fuel a b tp = Some (v, tp') -> (b < v <= a)%Z.
+Proof. exact uniform_within_rev. Qed.
+Print Assumptions C33_uniform_within_rev.
+
+(** choices with cum_weights= / weights= (nonnegative integer weights, positive total): members of the population. *)
+Theorem C33_choices_cum_member :
+  forall (fuel : nat) (pop cum : list Z) (k : nat) (tp : tape) (r : list Z) (tp' : tape),
+    bits tp -> cum <> [] -> length cum = length pop -> nondecr 0 cum -> (0 < last cum 0)%Z ->
+    choices_cum fuel pop cum k tp = Some (r, tp') -> Forall (fun v => In v pop) r.
+Proof. exact choices_cum_member. Qed.
+Print Assumptions C33_choices_cum_member.
+
+Theorem C33_choices_weights_member :
+  forall (fuel : nat) (pop w : list Z) (k : nat) (tp : tape) (r : list Z) (tp' : tape),
+    bits tp -> w <> [] -> length w = length pop -> Forall (fun a => (0 <= a)%Z) w ->
+    (0 < last (accumulate 0 w) 0)%Z ->
+    choices_weights fuel pop w k tp = Some (r, tp') -> Forall (fun v => In v pop) r.
+Proof. exact choices_weights_member. Qed.
+Print Assumptions C33_choices_weights_member.
 
 (** Uniformity by counting, bound in the statement (n <= 64): a tape holding exactly one pass of k bits is accepted
     iff it encodes a value v < n, the output is v and the k bits are consumed; every v < n has such a tape.
@@ -123,7 +146,9 @@ Print Assumptions C33_rejection_ignores_retained_bits.
 Example C33_nonvacuous2 :
   randbelow 100 6 [1; 1; 1; 0; 1]%Z = Some (5%Z, []) /\          (* 7 rejected at bit 1... restart keeps bit 0 *)
   randrange 100 2 11 3 [0; 1]%Z = Some (8%Z, []) /\
-  uniform_fxp 100 16 28 [1; 1; 0; 1]%Z = Some (27%Z, []) /\
+  uniform_fxp 100 16 28 [1; 1; 0; 1]%Z = Some (27%Z, []) /\ uniform_fxp 100 16 16 [1]%Z = Some (16%Z, [1%Z]) /\
+  uniform_fxp 100 28 16 [1; 1; 0; 1]%Z = Some (17%Z, []) /\
+  choices_weights 100 [5; 7; 9]%Z [1; 2; 1]%Z 2 [1; 0; 1; 1]%Z = Some ([7; 9]%Z, []) /\
   rb_pass 5 2 [1; 1; 1]%Z 1 3 3 = Some 1 /\ rb_pass 5 2 [0; 1; 1]%Z 1 3 3 = Some 1.
 Proof. vm_compute. repeat split; reflexivity. Qed.
 
@@ -140,11 +165,3 @@ Proof.
   split; [repeat constructor; (left; reflexivity) || (right; reflexivity)|].
   vm_compute. repeat split; reflexivity.
 Qed.
-
-(** The documented bound of uniform fails for a degenerate interval: the model (as the code) returns a+1 unit. *)
-Theorem C33_uniform_bounds_refuted :
-  exists (a b : Z) (tp : tape), bits tp /\ (a <= b)%Z /\
-    exists v, uniform_fxp 10 a b tp = Some (v, []) /\ (b < v)%Z.
-Proof. exists 16%Z, 16%Z, [1%Z]. split; [repeat constructor; right; reflexivity|]. split; [reflexivity|].
-  exists 17%Z. split; reflexivity. Qed.
-Print Assumptions C33_uniform_bounds_refuted.
